@@ -348,7 +348,8 @@ def create_continuous_elements_index(net, start=0, add_df_to_reindex=None, store
     :rtype: pandapipesNet
     """
     add_df_to_reindex = set() if add_df_to_reindex is None else set(add_df_to_reindex)
-    elements = pp_elements(include_res_elements=True, net=net)
+    # the result table of an element is reindexed together with the element itself (cf. reindex_elements)
+    elements = pp_elements(include_res_elements=False, net=net)
     elements |= add_df_to_reindex
 
     # run reindex_elements() for all elements
